@@ -38,6 +38,8 @@ pub struct Replayer {
     pub step: usize,
     pub states: Vec<String>,
     pub deep: bool,
+    pub faults: bool,
+    pub pairs: bool,
 }
 
 macro_rules! viol {
@@ -48,7 +50,7 @@ macro_rules! viol {
 
 impl Replayer {
     pub fn new(w: World, deep: bool) -> Self {
-        Replayer { w, viols: vec![], step: 0, states: vec![], deep }
+        Replayer { w, viols: vec![], step: 0, states: vec![], deep, faults: false, pairs: false }
     }
 
     /// Compare the real group of `party` with the expected projection `post`.
@@ -154,6 +156,32 @@ impl Replayer {
             post.get("cache")
         );
         self.states.push(dig);
+    }
+
+    /// Repository queues and stored history of `party` vs the model (C06, C19).
+    pub fn compare_aux(&mut self, party: &str, aux: &Value) {
+        let gid = self.w.gid.clone();
+        let lst = |v: &Value, k: &str| -> Vec<u64> { v.get(k).and_then(|x| x.as_array()).map(|a| a.iter().map(|e| e.as_u64().unwrap()).collect()).unwrap_or_default() };
+        if let Some(g) = self.w.parties[party].group.as_ref() {
+            let st = g.verif_state();
+            let ins = st.pending_insert_epochs();
+            let mut upd = st.pending_update_epochs();
+            upd.sort();
+            if ins != lst(aux, "ins") {
+                viol!(self, ["C06", "C19", "C15"], "repo-inserts", "{party}: prior epochs queued for insertion {ins:?}, specification says {:?}", lst(aux, "ins"));
+            }
+            if upd != lst(aux, "upd") {
+                viol!(self, ["C06", "C19"], "repo-updates", "{party}: prior epochs loaded from storage {upd:?}, specification says {:?}", lst(aux, "upd"));
+            }
+        }
+        let stored = self.w.parties[party].gs.stored_epochs(&gid);
+        if stored != lst(aux, "stored") {
+            viol!(self, ["C06", "C19"], "stored-epochs", "{party}: storage retains prior epochs {stored:?}, specification says {:?}", lst(aux, "stored"));
+        }
+        let has = self.w.parties[party].gs.peek_state(&gid).is_some();
+        if has != aux.get("hasSnap").and_then(|x| x.as_bool()).unwrap_or(false) {
+            viol!(self, ["C06"], "stored-snapshot", "{party}: stored snapshot present={has}, specification says otherwise");
+        }
     }
 
     pub fn compare_tree(&mut self, party: &str, nodes: &[Option<Node>], exp: &[Value], what: &str) {
@@ -268,15 +296,14 @@ impl Replayer {
         false
     }
 
-    pub fn run_step(&mut self, st: &Value) {
-        let a = s(st, "a").to_string();
-        let p = s(st, "p").to_string();
-        let args = st.get("args").cloned().unwrap_or(json!({}));
-        let want = s(st, "res").to_string();
-        let out = st.get("out").cloned().unwrap_or(json!({}));
-        let before = self.w.parties[&p].group.as_ref().map(|g| g.verif_state());
+    /// Execute one API call; returns the outcome class and whether the member changed epoch.
+    fn exec(&mut self, a: &str, p: &String, args: &Value, out: &Value, want: &str) -> (String, bool) {
+        let p = p.clone();
+        let args = args.clone();
+        let out = out.clone();
+        let want = want.to_string();
         let mut epoch_changed = false;
-        let got: String = match a.as_str() {
+        let got: String = match a {
             "GenKeyPackage" => {
                 let party = self.w.parties.get_mut(&p).unwrap();
                 let ids_before: Vec<Vec<u8>> = match &party.kp.inner {
@@ -338,7 +365,99 @@ impl Replayer {
                     Err(e) => classify(&e),
                 }
             }
-            "Commit" => self.do_commit(&p, &args, &out, &want),
+            "Commit" => self.do_commit(&p, &args, &out, &want, false),
+            "CommitDetached" => self.do_commit(&p, &args, &out, &want, true),
+            "DsChoose" => { "ok".to_string() }
+            "ApplyDetached" => {
+                let n = u(&args, "commit") as usize;
+                let sec = self.w.detached.remove(&(p.clone(), n));
+                let g = self.w.parties.get_mut(&p).unwrap().group.as_mut().unwrap();
+                match sec {
+                    None => "err:no-secrets".into(),
+                    Some(sec) => match g.apply_detached_commit(sec) {
+                        Ok(_) => { epoch_changed = true; "ok".into() }
+                        Err(e) => classify(&e),
+                    },
+                }
+            }
+            "Encrypt" => {
+                let k = u(&args, "k") as usize;
+                let idx = self.w.apps.len() + 1;
+                let g = self.w.parties.get_mut(&p).unwrap().group.as_mut().unwrap();
+                let mut msgs = vec![];
+                let mut res = "ok".to_string();
+                for i in 0..k {
+                    let payload = format!("app{idx}:{i}").into_bytes();
+                    match g.encrypt_application_message(&payload, b"aad".to_vec()) {
+                        Ok(m) => msgs.push(m),
+                        Err(e) => { res = classify(&e); break; }
+                    }
+                }
+                if res == "ok" { self.w.apps.push((p.clone(), msgs)); }
+                res
+            }
+            "DeliverApp" => {
+                let a = u(&args, "app") as usize;
+                let gen = u(&args, "gen") as usize;
+                let lo = self.w.app_lo.get(&a).copied().unwrap_or(0);
+                let (sender, msgs) = &self.w.apps[a - 1];
+                let sender_leaf = self.w.app_leaf.get(&a).copied();
+                let m = msgs[gen - lo].clone();
+                let sender = sender.clone();
+                let g = self.w.parties.get_mut(&p).unwrap().group.as_mut().unwrap();
+                match g.process_incoming_message(m) {
+                    Ok(ReceivedMessage::ApplicationMessage(d)) => {
+                        let want_payload = format!("app{a}:{}", gen - lo).into_bytes();
+                        if d.data() != want_payload.as_slice() || d.authenticated_data != b"aad" || Some(d.sender_index) != sender_leaf {
+                            viol!(self, ["C03", "C19"], "app-misreported", "{p}: application message of {sender} reported with wrong payload, authenticated data or sender index {}", d.sender_index);
+                        }
+                        "ok".into()
+                    }
+                    Ok(o) => format!("ok:unexpected:{o:?}"),
+                    Err(e) => classify(&e),
+                }
+            }
+            "Write" => {
+                let party = self.w.parties.get_mut(&p).unwrap();
+                let g = party.group.as_mut().unwrap();
+                match g.write_to_storage() {
+                    Ok(()) => {
+                        let st = g.verif_state();
+                        self.w.written.insert(p.clone(), st);
+                        // C07: once the joiner persists its group the used key package is gone from its store
+                        if let Some(id) = self.w.joined_with.get(&p) {
+                            if self.w.parties[&p].kp.peek(id).is_some() {
+                                viol!(self, ["C07"], "kp-not-deleted", "{p}: key package used to join is still in the key-package store after write_to_storage");
+                            }
+                            self.w.bump("kp_deleted_checks");
+                        }
+                        "ok".into()
+                    }
+                    Err(e) => classify(&e),
+                }
+            }
+            "Load" => {
+                let gid = self.w.gid.clone();
+                let party = self.w.parties.get_mut(&p).unwrap();
+                party.group = None;
+                match party.client.load_group(&gid) {
+                    Ok(g) => {
+                        // C06: the loaded group is the group that was written
+                        if let Some(wst) = self.w.written.get(&p) {
+                            // the queued key-package deletion is a one-shot note of the joining process, not state
+                            let d: Vec<_> = wst.diff(&g.verif_state()).into_iter().filter(|c| *c != "repo_key_package_removal").collect();
+                            if !d.is_empty() {
+                                viol!(self, ["C06"], "load-differs", "{p}: group loaded from storage differs from the group written in {d:?}");
+                            }
+                        }
+                        self.w.parties.get_mut(&p).unwrap().group = Some(g);
+                        self.w.detached.retain(|k, _| k.0 != p);
+                        self.w.bump("load_equals_written_checks");
+                        "ok".into()
+                    }
+                    Err(e) => classify(&e),
+                }
+            }
             "ClearPending" => {
                 let g = self.w.parties.get_mut(&p).unwrap().group.as_mut().unwrap();
                 g.clear_pending_commit();
@@ -380,24 +499,34 @@ impl Replayer {
                 let party = &self.w.parties[&p];
                 let mut res = Err("no welcome for this key package".to_string());
                 let tree_bytes = ce.tree.clone();
+                let my_ref = self.w.kps[kpi - 1].store_id.clone();
                 for wmsg in ce.output.welcome_messages.iter() {
+                    // the Welcome that names this key package (single or per-member Welcome messages)
+                    if !my_ref.is_empty() && !wmsg.welcome_key_package_references().iter().any(|r| r.to_vec() == my_ref) {
+                        continue;
+                    }
                     let tree = if self.w.opts.ratchet_tree_ext {
                         None
                     } else {
                         tree_bytes.as_ref().map(|b| mls_rs::group::ExportedTree::from_bytes(b).unwrap())
                     };
-                    match party.client.join_group(tree, wmsg, None) {
-                        Ok((g, _info)) => {
-                            res = Ok(g);
-                            break;
-                        }
-                        Err(e) => res = Err(classify(&e)),
-                    }
+                    res = match party.client.join_group(tree, wmsg, None) {
+                        Ok((g, _info)) => Ok(g),
+                        Err(e) => Err(classify(&e)),
+                    };
+                    break;
                 }
-                let _ = kpi;
                 match res {
                     Ok(g) => {
                         self.w.parties.get_mut(&p).unwrap().group = Some(g);
+                        let id = self.w.kps[kpi - 1].store_id.clone();
+                        if !id.is_empty() {
+                            // C07: not deleted before the group is persisted
+                            if self.w.parties[&p].kp.peek(&id).is_none() {
+                                viol!(self, ["C07"], "kp-deleted-early", "{p}: key package private keys disappeared before the new group was written to storage");
+                            }
+                            self.w.joined_with.insert(p.clone(), id);
+                        }
                         epoch_changed = true;
                         "ok".into()
                     }
@@ -414,23 +543,112 @@ impl Replayer {
             }
             other => panic!("unknown action {other}"),
         };
+        (got, epoch_changed)
+    }
+
+    /// C15: fail every storage call of the operation in turn (then pairs of adjacent calls); each
+    /// faulted attempt must return a storage error and leave member and storage untouched; the final,
+    /// fault-free attempt is the step proper and is compared with the model as usual.
+    fn exec_with_faults(&mut self, a: &str, p: &String, args: &Value, out: &Value, want: &str) -> (String, bool) {
+        let gid = self.w.gid.clone();
+        let mut k = 0usize;
+        let mut pair = false;
+        loop {
+            let held = if a == "Load" { self.w.parties[p].group.clone() } else { None };
+            let pre_state = self.w.parties[p].group.as_ref().map(|g| g.verif_state());
+            let pre_store = (self.w.parties[p].gs.peek_state(&gid), self.w.parties[p].gs.stored_epochs(&gid));
+            let pre_pending = self.w.parties[p].group.as_ref().map(|g| g.has_pending_commit());
+            let plan: Vec<usize> = if pair { vec![k, k + 1] } else { vec![k] };
+            self.w.parties[p].ctl.arm(&plan);
+            let (got, ch) = self.exec(a, p, args, out, want);
+            let injected = self.w.parties[p].ctl.disarm();
+            if injected == 0 {
+                if !pair && k > 0 && self.pairs {
+                    // all single positions done: one more round with pairs, then the real attempt
+                    pair = true;
+                    k = 0;
+                    // the attempt above was fault-free and is the step proper
+                }
+                return (got, ch);
+            }
+            self.w.bump("storage_faults_injected");
+            self.w.bump(&format!("fault:{a}"));
+            if !got.starts_with("err") {
+                viol!(self, ["C15"], "fault-not-surfaced", "{a} by {p}: storage call {plan:?} failed but the operation returned {got}");
+                return (got, ch);
+            }
+            if a == "Load" {
+                if let Some(h) = held { self.w.parties.get_mut(p).unwrap().group = Some(h); }
+            }
+            if let (Some(b), Some(g)) = (pre_state.as_ref(), self.w.parties[p].group.as_ref()) {
+                // Write is two storage operations (group state, then key-package deletion): when only the second
+                // fails the queued epochs have legitimately been flushed; the stored history is compared with
+                // the model after the retry instead.
+                let d: Vec<_> = b.diff(&g.verif_state()).into_iter().filter(|c| *c != "repo_updates" && !(a == "Write" && *c == "repo_inserts")).collect();
+                if !d.is_empty() {
+                    viol!(self, ["C15", "C04"], "fault-changed-state", "{a} by {p}: storage call {plan:?} failed and the member changed in {d:?}");
+                    return (got, ch);
+                }
+                if pre_pending != Some(g.has_pending_commit()) {
+                    viol!(self, ["C15"], "fault-lost-pending", "{a} by {p}: storage call {plan:?} failed and the pending commit was lost");
+                    return (got, ch);
+                }
+            }
+            let post_store = (self.w.parties[p].gs.peek_state(&gid), self.w.parties[p].gs.stored_epochs(&gid));
+            if a != "Write" && pre_store != post_store {
+                viol!(self, ["C15"], "fault-changed-storage", "{a} by {p}: storage call {plan:?} failed and the stored history changed");
+                return (got, ch);
+            }
+            k += 1;
+            if k > 12 { return (got, ch); }
+        }
+    }
+
+    pub fn run_step(&mut self, st: &Value) {
+        let a = s(st, "a").to_string();
+        let p = s(st, "p").to_string();
+        let args = st.get("args").cloned().unwrap_or(json!({}));
+        let want = s(st, "res").to_string();
+        let out = st.get("out").cloned().unwrap_or(json!({}));
+        if a == "DsChoose" { return; }
+        let before = self.w.parties[&p].group.as_ref().map(|g| g.verif_state());
+        let storage_op = matches!(a.as_str(), "ApplyPending" | "ApplyDetached" | "DeliverCommit" | "DeliverApp" | "Write" | "Load" | "JoinWelcome" | "GenKeyPackage" | "Commit" | "CommitDetached");
+        let (got, epoch_changed) = if self.faults && storage_op {
+            self.exec_with_faults(&a, &p, &args, &out, &want)
+        } else {
+            self.exec(&a, &p, &args, &out, &want)
+        };
+        if !self.viols.is_empty() { return; }
+        if a == "Encrypt" && got == "ok" {
+            let idx = self.w.apps.len();
+            self.w.app_lo.insert(idx, u(&out, "lo") as usize);
+            if let Some(g) = self.w.parties[&p].group.as_ref() { self.w.app_leaf.insert(idx, g.current_member_index()); }
+        }
         self.w.bump(&format!("{a}:{}", want.split(':').take(2).collect::<Vec<_>>().join(":")));
         let res_ok = self.check_res(&a, &p, &want, &got);
         // C04 / C11: an error (and a reported removal) leaves the member exactly as it was
         if got.starts_with("err") || got == "ok:removed" {
             if let (Some(b), Some(g)) = (before.as_ref(), self.w.parties[&p].group.as_ref()) {
                 // a removed member that decrypted an encrypted commit has consumed that message key
-                let d: Vec<_> = b.diff(&g.verif_state()).into_iter().filter(|c| !(got == "ok:removed" && self.w.opts.encrypt_controls && *c == "epoch_secrets")).collect();
+                let after = g.verif_state();
+                // a stored prior-epoch record that was merely loaded into the repository's cache (byte-identical
+                // to what storage holds) is not a change of the member
+                let gid = self.w.gid.clone();
+                let old_recs = b.pending_update_records();
+                let cache_only = after.pending_update_records().iter().all(|(id, bytes)| {
+                    old_recs.iter().any(|(i, bb)| i == id && bb == bytes) || self.w.parties[&p].gs.peek_epoch(&gid, *id).as_deref() == Some(bytes.as_slice())
+                });
+                let d: Vec<_> = b.diff(&after).into_iter().filter(|c| !(got == "ok:removed" && self.w.opts.encrypt_controls && *c == "epoch_secrets") && !(*c == "repo_updates" && cache_only)).collect();
                 if !d.is_empty() {
                     viol!(self, ["C04"], "err-changed-state", "{a} by {p} returned {got} but changed {d:?}");
                 }
                 self.w.bump("err_state_checks");
             }
         }
-        if a == "Commit" && got == "ok" {
+        if (a == "Commit" || a == "CommitDetached") && got == "ok" {
             // C11: building a commit leaves the member in its epoch: nothing but the pending commit changes
             if let (Some(b), Some(g)) = (before.as_ref(), self.w.parties[&p].group.as_ref()) {
-                let d: Vec<_> = b.diff(&g.verif_state()).into_iter().filter(|c| *c != "pending_commit" && !(self.w.opts.encrypt_controls && *c == "epoch_secrets")).collect();
+                let d: Vec<_> = b.diff(&g.verif_state()).into_iter().filter(|c| !(a == "Commit" && *c == "pending_commit") && !(self.w.opts.encrypt_controls && *c == "epoch_secrets")).collect();
                 if !d.is_empty() {
                     viol!(self, ["C11"], "commit-changed-state", "building a commit changed {d:?} of {p}");
                 }
@@ -442,19 +660,21 @@ impl Replayer {
         if let Some(post) = st.get("post") {
             self.compare_projection(&p, post);
         }
+        if let Some(aux) = st.get("aux") {
+            self.compare_aux(&p, aux);
+        }
         if epoch_changed && self.viols.is_empty() {
             self.epoch_oracles(&p);
         }
     }
 
-    fn do_commit(&mut self, p: &str, args: &Value, out: &Value, want: &str) -> String {
+    fn do_commit(&mut self, p: &str, args: &Value, out: &Value, want: &str, detached: bool) -> String {
         let byval = args.get("byval").and_then(|b| b.as_array()).cloned().unwrap_or_default();
         let kps: Vec<Option<MlsMessage>> = byval
             .iter()
             .map(|it| if s(it, "kind") == "add" { Some(self.w.kps[u(it, "kp") as usize - 1].msg.clone()) } else { None })
             .collect();
-        self.w.rec.take();
-        self.w.rec.set(true, false);
+        let mark = self.w.rec.len();
         let party = self.w.parties.get_mut(p).unwrap();
         let g = party.group.as_mut().unwrap();
         let base_epoch = g.current_epoch();
@@ -470,13 +690,13 @@ impl Replayer {
                     k => panic!("by-value kind {k}"),
                 };
             }
-            b.build()
+            if detached { b.build_detached().map(|(o, s)| (o, Some(s))) } else { b.build().map(|o| (o, None)) }
         })();
-        self.w.rec.set(false, false);
-        let evs = self.w.rec.take();
+        let evs = self.w.rec.since(mark);
         match r {
             Err(e) => classify(&e),
-            Ok(o) => {
+            Ok((o, secrets)) => {
+                if let Some(sec) = secrets { let n = self.w.commits.len() + 1; self.w.detached.insert((p.to_string(), n), sec); }
                 let tree = o.ratchet_tree.as_ref().map(|t| t.to_bytes().unwrap());
                 let msg = o.commit_message.clone();
                 if want == "ok" {
@@ -534,6 +754,33 @@ impl Replayer {
         }
     }
 
+    /// C05: no two AEAD encryptions of the whole run use the same (key, nonce); a sender's handshake and
+    /// application keys are disjoint (follows from uniqueness of keys across all seals).
+    pub fn nonce_monitor(&mut self) {
+        let evs = self.w.rec.take();
+        let mut seen: std::collections::HashMap<(Vec<u8>, Vec<u8>), String> = std::collections::HashMap::new();
+        let mut detail: std::collections::HashMap<(Vec<u8>, Vec<u8>), (Vec<u8>, usize)> = std::collections::HashMap::new();
+        let mut keys: std::collections::HashMap<Vec<u8>, Vec<u8>> = std::collections::HashMap::new();
+        let mut n = 0u64;
+        for (who, ev) in evs.iter() {
+            if let Ev::AeadSeal { key, nonce, aad, pt_len } = ev {
+                // message content and sender data are sealed with framing AAD; the Welcome's GroupInfo is
+                // sealed without AAD (two byte-identical commits legitimately produce the same Welcome)
+                if aad.is_empty() {
+                    continue;
+                }
+                n += 1;
+                if let Some(prev) = seen.insert((key.clone(), nonce.clone()), who.clone()) {
+                    let d = detail.get(&(key.clone(), nonce.clone())).cloned().unwrap_or_default();
+                    viol!(self, ["C05"], "nonce-reuse", "AEAD key and nonce used twice (by {prev} and {who}); first aad={} len={}, second aad={} len={}", hex::encode(&d.0[..d.0.len().min(24)]), d.1, hex::encode(&aad[..aad.len().min(24)]), pt_len);
+                }
+                detail.insert((key.clone(), nonce.clone()), (aad.clone(), *pt_len));
+                keys.entry(key.clone()).or_insert_with(|| nonce.clone());
+            }
+        }
+        *self.w.stats.entry("aead_seals_monitored".into()).or_insert(0) += n;
+    }
+
     /// C02: retained groups of removed members must reject all traffic of later epochs.
     pub fn feed_zombies(&mut self) {
         let names: Vec<String> = self.w.parties.keys().cloned().collect();
@@ -574,7 +821,7 @@ fn find(h: &[u8], n: &[u8]) -> bool {
 }
 
 /// Run one behaviour; stops at the first step with violations.
-pub fn run_behaviour(b: &Value, opts: Opts, deep: bool) -> Outcome {
+pub fn run_behaviour(b: &Value, opts: Opts, deep: bool, faults: bool) -> Outcome {
     let cfg = b.get("cfg").cloned().unwrap_or(json!({}));
     let mut names: Vec<String> = cfg.get("parties").and_then(|p| p.as_array()).map(|a| a.iter().map(|x| x.as_str().unwrap().to_string()).collect()).unwrap_or_default();
     names.sort();
@@ -587,6 +834,8 @@ pub fn run_behaviour(b: &Value, opts: Opts, deep: bool) -> Outcome {
         Err(e) => panic!("world: {e}"),
     };
     let mut r = Replayer::new(w, deep);
+    r.faults = faults;
+    r.w.rec.set(true, false);
     let steps = b.get("steps").and_then(|x| x.as_array()).cloned().unwrap_or_default();
     let mut run = 0;
     for (i, st) in steps.iter().enumerate() {
@@ -604,6 +853,7 @@ pub fn run_behaviour(b: &Value, opts: Opts, deep: bool) -> Outcome {
     if r.viols.is_empty() {
         r.step = steps.len();
         r.feed_zombies();
+        r.nonce_monitor();
     }
     Outcome { steps_run: run, viols: r.viols.clone(), stats: r.w.stats.clone(), states: r.states.clone() }
 }
